@@ -342,7 +342,11 @@ func VH_C01_History(cfg, axis int) {
 				r := &replication.VHWriter{}
 				r.TableID(tableID, width)
 				r.U16(0)
-				if v2 {
+				if v2 && axis == 2 {
+					// extra row info (partition ids since 8.0.16, NDB): the length field counts itself
+					r.U16(2 + 3)
+					r.Raw(vhBytes(3))
+				} else if v2 {
 					r.U16(2)
 				}
 				r.LenEnc(uint64(len(cols)))
